@@ -168,6 +168,36 @@ impl Property for C07 {
                 }
             }
         }
+        // ---- phase 2b: the same, with state transfer in the mix: besides the writers' deltas the twins are handed the
+        // merged states the phase-1 replicas hold (what an anti-entropy exchange or a compacted segment carries); a merged
+        // state shares its outer stamp with the newest of its constituents, so "equal stamp = same write" is false here
+        if !deltas.is_empty() {
+            let mut all: Vec<ReplicationDelta> = deltas.clone();
+            for (ri, r) in reps.iter().enumerate() { for k in &keys[..nkeys] { if let Some(v) = r.get_replicated(k) { all.push(ReplicationDelta::new(k.to_string(), v.clone(), ReplicaId::new(ri as u64 + 1))); } } }
+            // the twins miss some of it (the same part): a replica that never saw a constituent delta depends on the
+            // merged state that carries it
+            if src.chance(2, 3) { let keep: Vec<bool> = (0..all.len()).map(|_| src.chance(1, 2)).collect(); let mut it = keep.iter(); all.retain(|_| *it.next().unwrap()); }
+            let mut a = ShardReplicaState::new(ReplicaId::new(8), level);
+            let mut b = ShardReplicaState::new(ReplicaId::new(9), level);
+            let mut order_b: Vec<usize> = (0..all.len()).collect();
+            for i in (1..order_b.len()).rev() { let j = src.idx(i + 1); order_b.swap(i, j); }
+            let mut order_a: Vec<usize> = (0..all.len()).collect();
+            if src.chance(1, 2) { order_a.reverse(); }
+            for i in &order_a { a.apply_remote_delta(all[*i].clone()); }
+            for i in &order_b { b.apply_remote_delta(all[*i].clone()); }
+            rep.probe("twin_order_compared_with_state_transfer");
+            rep.evals += 1;
+            for k in &keys[..nkeys] {
+                let (pa, pb) = (a.get_replicated(k).map(proj_s), b.get_replicated(k).map(proj_s));
+                if pa != pb && rep.violations.is_empty() {
+                    let kinds: Vec<&str> = all.iter().filter(|d| d.key == *k).map(|d| kind(&d.value)).collect();
+                    let mixed = kinds.iter().any(|x| *x != kinds[0]);
+                    let key = if mixed { "C07/order-dependence/type-mismatch" } else { "C07/order-dependence/same-type/with-state-transfer" };
+                    rep.violate(key, format!("key {}: the same {} deltas and merged states, order {:?} vs {:?}: {} != {}", k, all.len(), order_a, order_b, pa.unwrap_or_default(), pb.unwrap_or_default()));
+                    break;
+                }
+            }
+        }
         // ---- phase 3: laws on tape-chosen pairs/triples (same-key values are what production merges,
         // but merge is a total function, so cross-key operands are legitimate inputs too)
         let ninst = src.list(40, 15, 16, |s| { let g = s.idx(groups.len()); let n = groups[g].len(); (g, s.idx(n), s.idx(n), s.idx(n), s.below(3)) });
